@@ -92,6 +92,12 @@ var vfC02Shapes = [][2]string{
 	{"LINESTRING(0 0,4 0)", "MULTIPOINT(0 0,2 0)"},                                               // points on end and interior
 	{"MULTIPOLYGON(((0 0,2 0,2 2,0 2,0 0)),((2 2,4 2,4 4,2 4,2 2)))", "LINESTRING(0 2,2 2,4 2)"}, // line through the touching vertex
 	{"GEOMETRYCOLLECTION(POLYGON((0 0,2 0,2 2,0 2,0 0)),LINESTRING(3 0,5 0),POINT(7 7))", "LINESTRING(1 1,5 -1,7 7)"},
+	// operands lying entirely on a coordinate axis
+	{"POINT(0 2)", "POINT(0 3)"},
+	{"LINESTRING(0 0,0 1)", "LINESTRING(0 2,0 3)"},
+	{"LINESTRING(0 0,0 2)", "LINESTRING(0 1,0 3)"},
+	{"LINESTRING(0 -1,0 2)", "POINT(0 1)"},
+	{"LINESTRING(-1 0,2 0)", "MULTIPOINT(1 0,5 0)"},
 }
 
 // Relate on concrete operands against the definition, cell by cell: a cell is
